@@ -93,6 +93,11 @@ chk('C16', 'fault_enumeration',
     'For 8 file contents the syscall history of the real `falco fmt -w FILE` is recorded under strace; every invocation of every file-related syscall of that history is re-run once per errno of its menu (fault) and once with SIGKILL on entry (every crash prefix), plus every RLIMIT_FSIZE from 0 to output size + 8, an unopenable target and a directory in which nothing can be created - about 2600 process runs in the quick tier. After each run the file must hold its original bytes or exactly what `falco fmt FILE` prints; a non-zero exit implies the original bytes, a zero exit the formatted text.',
     'Trusts: strace fault injection (the run\'s own trace is inspected for the (INJECTED) marker), prlimit, kernel file semantics. Crash model: process death between two syscalls; power-loss reordering of unsynced blocks is out of scope.', '§4 C16')
 
+chk('C20', 'exploration',
+    'bounded-exhaustive enumeration of resource sets through both entry paths (stub API fetcher, generated Terraform plan JSON); oracle: generated VCL parses and declares exactly the resources',
+    'Every string of length <= 2 (quick) / 3 (thorough) over a 12-symbol alphabet of troublesome characters plus URL-encoded and quote/brace specials in every free-text field, every pair of fields, every 1-2 character insertion of non-identifier characters into backend names (also as director members) and director names, and structural variants (0/1/3 items, IPv4/IPv6 x negated x masks, directors with 0-2 members x types x retries absent/set) - about 16800 resource sets - are rendered by the real snippet package through a stub Fetcher and through terraform.ParseStdin. Oracle: no crash or refusal, every generated item parses, and the parsed tables / acls / backends / directors have exactly the key, value (after escape decoding), address, mask, negation and membership of the resources; a director member names the backend as declared.',
+    'Trusts: the stub fetcher and the Terraform plan JSON builder in mc/checks/c20; response objects and header rules are only required to parse.')
+
 NOT_YET = {i: 'check not built yet in this session (design in DESIGN.md §4); will be claimed once its command exists' for i in ids if i not in CHECKS}
 
 m = {
